@@ -96,6 +96,9 @@ PAIRS = {
     "prop_required": ("r1: bool, r2: bool, m: int", [], 'Element(properties={"a": Property(Integer(minimum=m), required=r1)})', 'Element(properties={"a": Property(Integer(minimum=m), required=r2)})', DV, DPRE, "quick"),
     "prop_source": ("s1: bool, s2: bool", [], 'Element(properties={"a": Property(Integer(), source=("b" if s1 else None))})', 'Element(properties={"a": Property(Integer(), source=("b" if s2 else "a"))})', DV, DPRE, "quick"),
     "prop_name": ("s1: bool", [], 'Element(properties={"a": Property(Integer(), source="c")}, additionalProperties=False)', 'Element(properties={("a" if s1 else "b"): Property(Integer(), source="c")}, additionalProperties=False)', DV, DPRE, "quick"),
+    "prop_required_shared_elem": ("r1: bool, r2: bool, m: int", [], 'Element(properties={"a": Property((sh := Integer(minimum=m)), required=r1)})', 'Element(properties={"a": Property(sh, required=r2)})', DV, DPRE, "quick"),
+    "prop_source_shared_elem": ("s1: bool, s2: bool, m: int", [], 'Element(properties={"a": Property((sh := Integer(minimum=m)), required=True, source=("b" if s1 else "a"))})', 'Element(properties={"a": Property(sh, required=True, source=("b" if s2 else "a"))})', DV, DPRE, "quick"),
+    "prop_shared_class_elem": ("r1: bool, r2: bool, m: int", [], 'Element(properties={"a": Property((sh := _P(m)), required=r1)})', 'Element(properties={"a": Property(sh, required=r2)})', "Dict[str, Dict[str, int]]", ["len(v) <= 1", "all(k in ('a', 'b') for k in v)", "all(len(d) <= 1 and all(k in ('a', 'x') for k in d) for d in v.values())"], "quick"),
     "required_list": ("s1: bool, s2: bool", [], 'Element(required=(["a"] if s1 else ["a", "b"]))', 'Element(required=(["a"] if s2 else ["b", "a"]))', DV, DPRE, "quick"),
     "class_vs_class": ("m: int, n: int, r: bool", [], 'Object.inline("M", properties={"a": Property(Integer(minimum=m), required=r)})', 'Object.inline("M", properties={"a": Property(Integer(minimum=n), required=True)})', DV, DPRE, "quick"),
     "class_names": ("m: int, n: int", [], 'Object.inline("M", properties={"a": Property(Integer(minimum=m))})', 'Object.inline("N", properties={"a": Property(Integer(minimum=n))})', DV, DPRE, "thorough"),
@@ -165,6 +168,13 @@ def make_def():
     return Element(const=c2)
 return definitions_ok(make, make_def, v)
 """, timeout=90, group="users"))
+    hs.append(mk("c17_dedupe_shared_child", f"r1: bool, r2: bool, m: int, v: Dict[str, Dict[str, int]]",
+                 ["len(v) <= 1", "all(k in ('child', 'b') for k in v)", "all(len(d) <= 1 and all(k in ('n', 'x') for k in d) for d in v.values())"], """
+child = {"type": "object", "title": "Child", "properties": {"n": {"minimum": m}}}
+S1 = {"type": "object", "title": "Item", "properties": {"child": child}, "required": (["child"] if r1 else [])}
+S2 = {"type": "object", "title": "Item", "properties": {"child": child}, "required": (["child"] if r2 else [])}
+return dedupe_ok(S1, S2, v)
+""", timeout=120, group="users", covers="two same-titled object schemas sharing one (dereferenced) child schema object, differing only in required"))
     hs.append(mk("c17_definitions_min", f"m: int, n: int, v: {DV}", DPRE, """
 def make():
     return Element(properties={"a": Property(Integer(minimum=m))}, additionalProperties=Number(minimum=m))
